@@ -352,7 +352,8 @@ pub fn gen_enum(ctx: &mut Ctx, o: &FOpts) -> Option<FCase> {
                 }
                 v.fields[0].attrs.push(Instr::new("ghost", ded, "{7}"));
                 if shape == Shape::Tuple {
-                    v.attrs.push(Instr::new("type_hint", None, "as Unit"));
+                    // (the hint is dedicated like the ghost: for another counterpart the payload field is mapped and the variant keeps its form)
+                    v.attrs.push(Instr::new("type_hint", ded, "as Unit"));
                 }
             }
             6 => {
